@@ -14,7 +14,7 @@ ID = 'C08'
 TECHNIQUE = 'runtime monitoring: client-boundary shadow of the real sim.Heap with a structural invariant walker after every event; memory-map lifetime checker over the tables published by the real scheduler; shadow-memory sanitizer (region/ownership/epoch) on real propagate+capture runs'
 LEVEL_TEXT = ('The real allocator is driven through many short random alloc/free histories (several size alphabets) and, in the thorough tier, through ALL '
               'histories up to length 7 over sizes {1,2,3}; after every event a shadow set of live regions and an invariant walker check overlap, tiling, '
-              'sorted/coalesced/trimmed free list and the high-water mark. The same monitor wraps the allocator inside the real SimOps constructor for seeded '
+              'coalesced/trimmed free list and the high-water mark, and - from the client side alone - that a request never misses a large enough contiguous free gap (unmerged neighbours). The same monitor wraps the allocator inside the real SimOps constructor for seeded '
               'circuits x capacities x options and the shipped netlists; the published map is checked against lifetimes derived from the op list and the '
               'netlist, and a shadow-memory sanitizer watches every access of real propagate/capture runs. Held on what was explored.')
 LEVEL_NOTE = 'trusted: vk/invariants.py, vk/shadow.py, vk/wave.py (netlist-derived producers); the allocator histories are exhaustive only up to the stated length'
@@ -42,6 +42,12 @@ def plan(tier, seed):
     return specs
 
 
+def notes(agg):
+    n = agg['counters'].get('heap/whitebox_unavailable', 0)
+    return [f'the allocator instance does not have the chunk table / free list / current_size of the pinned implementation ({n} monitors): the tiling clause and the '
+            'exact high-water mark were not evaluated; overlap, coalescing and the high-water lower bound were decided at the client boundary'] if n else []
+
+
 def _unattributed(c):
     return [f'the signal-memory sanitizer could not attribute {c[k]} accesses to an operation (counter {k}): the kernels are not entered through the hooked names'
             for k in ('san/unattributed', 'lsan/unattributed') if c.get(k, 0)]
@@ -49,7 +55,7 @@ def _unattributed(c):
 
 def conclude(agg):
     c = agg['counters']
-    r = [f'monitor counter {k} is zero' for k in ('heap_events', 'heap/splits', 'heap/merges_both', 'heap/tail_trims_cascade', 'heap/exact_fits',
+    r = [f'monitor counter {k} is zero' for k in ('heap_events', 'heap/b_reuse_split', 'heap/b_free_merge2', 'heap/b_free_top_cascade', 'heap/b_reuse_exact', 'heap/b_gap_rule_checks',
                                                   'map/sharing_pairs', 'map/alias_lines', 'san/reads', 'san/capture_reads', 'lsan/operand_checks', 'lsan/capture_rows', 'exhaustive_histories',
                                                   'simops_heap_events', 'reached/heap-split', 'reached/heap-merge-next', 'reached/heap-merge-prev',
                                                   'reached/heap-tail-cascade', 'corpus_circuits')
@@ -168,7 +174,9 @@ def map_case(ctx, case, circuit=None, b=None):
             ctx.count('heap/' + k, v)
         for m in I.alloc_free_interleaving(mons[0].events, sim):
             ctx.violation('release-within-level', m, case)
-        if int(sim.c_len) != mons[0].high:
+        if int(sim.c_len) < mons[0].max_end:
+            ctx.violation('map-total-size', f'c_len is {sim.c_len} but the allocator handed out a region ending at {mons[0].max_end}', case)
+        elif mons[0].whitebox and int(sim.c_len) != mons[0].high:
             ctx.violation('map-total-size', f'c_len is {sim.c_len} but the allocator extent reached {mons[0].high}', case)
     bad, st = I.inv_memmap(sim, circuit, case['strip_forks'], case['c_reuse'])
     for m in bad[:2]:
